@@ -99,9 +99,9 @@ LEVELS = {
                 "them, both publication modes: if they belong to keyper sets the keyper is a member of and the publication mechanism "
                 "accepts, each is handed over exactly once with the right activation block, keyper-set index and eon number, and the tick "
                 "reports no error; C20_any_order, C20_only_pending; C20_every_interval — over any sequence of intervals, whatever was "
-                "refused or failed in the others. The model is tied to queryAndHandleNewEonPubKeys by running the real "
+                "refused or failed in the others; C20_prefix — for any rows and any answers of the mechanism a tick hands over a prefix of the rows in order (never twice); C20_clean_iff. The model is tied to queryAndHandleNewEonPubKeys by running the real "
                 "handler (hook) over the PostgreSQL fake on multi-tick scenarios; the implementation's hand-overs are also checked directly, "
-                "and the real polling loop is run (hook) with a refused key followed by a later one.",
+                "and the real polling loop is run (hook) with a refused key followed by a later one and with three keys at one tick behind a mechanism slower than the polling interval.",
         "design_ref": "DESIGN.md §4 C20",
         "note": "Trusted: Lean kernel; correspondence harness incl. pgfake/kdb (my reading of the SQL); the verif-tag hook.",
         "technique": "Lean 4 theorem by induction over the pending list + differential runs of the real handler over an in-process PostgreSQL fake",
@@ -122,7 +122,7 @@ LEVELS = {
                 "list, signature list and every signature scheme (exactly threshold strictly increasing in-range signers, one signature "
                 "each, each recovering to its signer over the five signed fields); C06_tamper (changing any signed field invalidates, under "
                 "the stated unforgeability hypothesis); C06_service_unsigned / C06_service_signed for the service flavour with its single "
-                "exception. The model is tied to both real validators by exhaustive small-scope and sampled differential runs with real "
+                "exception, C06_service_tamper; C06_distinct_signers (an accepted message names threshold pairwise different positions). The model is tied to both real validators by exhaustive small-scope and sampled differential runs with real "
                 "ECDSA keys; the implementation's verdicts are also checked against an independent definition of a genuine threshold.",
         "design_ref": "DESIGN.md §4 C06",
         "note": "Trusted: Lean kernel; correspondence harness; secp256k1 recovery/verification and fastssz hashing as oracles; Binding hypothesis.",
@@ -156,7 +156,7 @@ LEVELS = {
     "C14": {
         "text": "Proof: C14_roundtrip — decode(encode(e)) = e for every well-formed event of all eight types (all uint64 including 0 and "
                 "2^64-1, empty and repeated address lists, empty byte strings, zero big integers), built from machine-checked round-trips "
-                "of the decimal, 0x-hex and comma-list codecs; C14_uint_strict, C14_expect_length, C14_names_checked for the error side. "
+                "of the decimal, 0x-hex and comma-list codecs; C14_injective (no two emitted values share a wire form); C14_uint_strict, C14_expect_length, C14_names_checked for the error side. "
                 "Library pieces that need keccak or curve arithmetic (EIP-55 casing, key and G2 point encodings) are oracles with stated "
                 "laws. The model is tied to the code by differential runs in both directions and on mutated events; malformed data must "
                 "be rejected by both or read identically by both, and the real decoder runs under recover().",
@@ -222,7 +222,7 @@ LEVELS = {
     "C12": {
         "text": "Proof: C12_diff_apply (apply(old, updates(old,new)) = new under Tendermint set/remove semantics, for all maps without "
                 "zero-power entries and all map iteration orders), C12_updates_sorted, C12_removals_present, C12_order_independent, "
-                "C12_live (check-in quorum > 2/3) are Lean theorems over the model of DiffPowermaps/ValidatorUpdates/"
+                "C12_no_change (equal maps: no updates), C12_minimal (every update changes the previous set), C12_live (check-in quorum > 2/3) are Lean theorems over the model of DiffPowermaps/ValidatorUpdates/"
                 "numRequiredTransitionValidators. The model is tied to the code by differential runs (histories + all pairs of small "
                 "power maps), and the property itself is monitored on the implementation by folding a reference Tendermint set over the "
                 "real EndBlock updates. The whole-history statement (fold = intended set at every height) is monitored, not yet a theorem.",
